@@ -465,15 +465,20 @@ class _ManifoldDynamicsService(_DynamicsServiceBase):
             id(self.domain_obj),
             self.orbit.initial_state,
             self.orbit.period,
+            "stability",
+            self.eigendecomposition_config,
             tuple(sorted(options.to_dict().items())),
         )
         
-        def _factory() -> StabilityPipeline:
+        def _factory():
             _, _, phi_T, _ = self.compute_stm(steps=2000)
-            self.generator.compute(domain_obj=phi_T, options=options)
-            return self.generator
+            return self.generator.compute(domain_obj=phi_T, options=options)
         
-        return self.get_or_create(key, _factory)
+        # The pipeline is one mutable object shared by every request: cache the
+        # results per request and hand the pipeline out carrying those results.
+        generator = self.generator
+        generator._results = self.get_or_create(key, _factory)
+        return generator
 
     def _compute_manifold_section(
         self,
